@@ -297,6 +297,16 @@ func decisive(v int64) bool { return v > ai.WinThreshold || v < -ai.WinThreshold
 
 // c04Check runs one engine entry point and reports legality of what came back.
 func c04Check(e *engine, kind string, p *tak.Position) string {
+	before := dumpPos(p) + "|" + absDump(p)
+	out := c04CheckInner(e, kind, p)
+	if dumpPos(p)+"|"+absDump(p) != before {
+		// the position handed to a searching player belongs to the caller
+		return "input-position-modified " + out
+	}
+	return out
+}
+
+func c04CheckInner(e *engine, kind string, p *tak.Position) string {
 	e.evals = 0
 	e.cancelAt = 0
 	ctx := context.Background()
